@@ -366,7 +366,7 @@ def inline_call(caller, call_block, callee):
         # parameters become anonymous temporaries (assigned once from the argument, so provenance looks through them);
         # the callee's own named variables keep their names
         ty = _subst_generics(l["t"], gtable) if gtable else l["t"]
-        caller["locals"].append({"t": ty, "n": l["n"]} if (i > callee["argc"] and l.get("n")) else {"t": ty})
+        caller["locals"].append({"t": ty, "n": l["n"], "inl": 1} if (i > callee["argc"] and l.get("n")) else {"t": ty, "inl": 1})
     if callee.get("promoted"):
         caller.setdefault("promoted", [])
         caller["promoted"].extend(copy.deepcopy(callee["promoted"]))
